@@ -31,6 +31,7 @@ static int request(const char* line) {
   if (c == 'K') return 0;
   if (c == 'T') { errno = ETIMEDOUT; return -1; }   /* the simulator let the timeout of a timed wait fire */
   if (c == 'A') { errno = EAGAIN; return -1; }
+  if (c == 'I') { errno = EINTR; return -1; }       /* the simulator had the blocked wait interrupted by a signal */
   errno = EINVAL; return -1;
 }
 
@@ -49,7 +50,17 @@ int sem_clockwait(sem_t* s, clockid_t c, const struct timespec* t) { (void)s; (v
 int sem_post(sem_t* s) { (void)s; return request("P\n"); }
 int sem_close(sem_t* s) { (void)s; return request("C\n"); }
 int sem_unlink(const char* name) { char b[256]; snprintf(b, sizeof b, "U %s\n", name); return request(b); }
-int sem_getvalue(sem_t* s, int* v) { (void)s; if (v) *v = 0; return request("G\n"); }
+/* the simulator answers 'V' followed by the 32-bit value of the semaphore object this process opened */
+int sem_getvalue(sem_t* s, int* v) {
+  (void)s; int fd = vsim_fd(); if (fd < 0) { errno = ENOSYS; return -1; }
+  const char* line = "G\n"; size_t off = 0;
+  while (off < 2) { ssize_t w = write(fd, line + off, 2 - off); if (w < 0) { if (errno == EINTR) continue; return -1; } off += (size_t)w; }
+  unsigned char b[5]; size_t got = 0;
+  while (got < 5) { ssize_t r = read(fd, b + got, 5 - got); if (r > 0) { got += (size_t)r; if (b[0] != 'V') break; } else if (r == 0) _exit(97); else if (errno != EINTR) return -1; }
+  if (b[0] != 'V') { errno = EINVAL; return -1; }
+  int val; memcpy(&val, b + 1, 4); if (v) *v = val;
+  return 0;
+}
 
 /* markers used by the quick-tier driver: section entry / exit and intermediate steps (each is a scheduling point) */
 void vsim_marker(const char* what) { char b[64]; snprintf(b, sizeof b, "M %s\n", what); request(b); }
